@@ -2,7 +2,7 @@
 EXTENDS VersCorrupt, VersSeeds, Json
 CONSTANTS NSeeds, RoutingIdx
 PreSeedSet == {<<"pypi", "vers:pypi/" \o SeedTable.pypi[i][1], p>> : i \in 1..NSeeds, p \in PypiPreProbes}
-SeedsDef == SeedSet(NSeeds) \cup NearMissSet \cup PreSeedSet \cup SingleSeedSet \cup ExclSeedSet
+SeedsDef == SeedSet(NSeeds) \cup NearMissSet \cup PreSeedSet \cup SingleSeedSet \cup ExclSeedSet \cup GoBuildSeedSet
 RoutingDef == RoutingSet(RoutingIdx)
 Init == CInit
 Next == CNext
